@@ -107,6 +107,9 @@ func TestVerifC02PSK(t *testing.T) {
 	r.Bounds["directions"] = "alternating a->b / b->a on every connection, both parities"
 	r.Bounds["read_after"] = "each write | last write"
 	r.Bounds["end_of_stream"] = "the last transfer of every connection: the writer closes before the reader reads what the last write sent; the connection underneath delivers its last segment together with io.EOF | before io.EOF (both)"
+	if !thorough {
+		r.Bounds["quick_reduction_end_of_stream"] = "together with io.EOF on the connections whose first transfer goes b->a (the last one then goes b->a as well), before io.EOF on those that start a->b; the thorough tier has the product"
+	}
 	r.Bounds["read_sizes"] = fmt.Sprintf("%v, L+1, remaining-1, remaining, remaining+1", fixed)
 	// zero-length reads (len(buf) = 0) interleaved: z(i mod n) of them before the i-th non-empty Read; with
 	// pattern [1] / [2,0] the very first Read of a direction (the one that has to fetch the nonce) is empty.
@@ -137,6 +140,9 @@ func TestVerifC02PSK(t *testing.T) {
 					}
 					for pj := 0; pj < 4; pj++ {
 						parity, join := pj%2, pj >= 2
+						if !thorough && join != (parity == 1) {
+							continue // quick: the delivery of the end of the stream is tied to the direction parity
+						}
 						if b.Over() {
 							return
 						}
